@@ -56,7 +56,8 @@ class Check:
 
     # ---- finish
     def finish(self):
-        rdir = os.path.join(ROOT, 'evidence', 'replay')
+        evdir = os.environ.get('VERIF_EVIDENCE_DIR', os.path.join(ROOT, 'evidence'))     # tools/mutest.sh points this to a scratch directory
+        rdir = os.path.join(evdir, 'replay')
         os.makedirs(rdir, exist_ok=True)
         for f in os.listdir(rdir):
             if f.startswith(self.pid + '-'):
@@ -77,8 +78,8 @@ class Check:
               'coverage': self.cov, 'assumptions': self.assumptions, 'wall_s': round(time.time() - self.t0, 2),
               'violations': len(self.violations),
               'known_findings_reproduced': self.known, 'model_drift': self.drift[:20], 'machinery_failures': self.machinery}
-        os.makedirs(os.path.join(ROOT, 'evidence'), exist_ok=True)
-        path = os.path.join(ROOT, 'evidence', self.pid + '.json')
+        os.makedirs(evdir, exist_ok=True)
+        path = os.path.join(evdir, self.pid + '.json')
         with open(path, 'w') as f:
             json.dump(ev, f, indent=1, default=_js)
         try:
